@@ -986,6 +986,33 @@ func callBuiltin(caller *frame, callpos token.Pos, fn *ssa.Builtin, args []value
 		close(args[0].(chan value))
 		return nil
 
+	case "clear": // clear(map[K]V) or clear([]T)
+		switch m := args[0].(type) {
+		case map[value]value:
+			caller.i.sym.checkMapWrite(caller, args[0])
+			for k := range m {
+				delete(m, k)
+			}
+		case []value:
+			caller.i.sym.checkCopy(caller, m, len(m))
+			var elem types.Type
+			if sig, ok := fn.Type().(*types.Signature); ok && sig.Params().Len() == 1 {
+				if sl, ok := sig.Params().At(0).Type().Underlying().(*types.Slice); ok {
+					elem = sl.Elem()
+				}
+			}
+			if elem == nil {
+				panic(unsupported("clear: element type unknown"))
+			}
+			for i := range m {
+				m[i] = zero(elem)
+			}
+		case nil:
+		default:
+			panic(unsupported(fmt.Sprintf("clear on %T", m)))
+		}
+		return nil
+
 	case "delete": // delete(map[K]value, K)
 		caller.i.sym.checkMapWrite(caller, args[0])
 		switch m := args[0].(type) {
